@@ -458,18 +458,23 @@ class Handler(object):
         return out
 
     def _decide_type(self, state):
-        """start_type: nested in STATE_TYPE (no switch), switch to STATE_TYPE from the listed states,
-        anywhere else the element is 'invalid here' (reported as not accepted)"""
+        """start_type: nested in STATE_TYPE (no switch, type_depth + 1), switch to STATE_TYPE from the listed
+        states; in any other state the function goes on WITHOUT touching the state and returns TRUE (the element
+        is taken, silently, and its end tag is then an error of end_element_handler)"""
         m = re.search(r'if \(ctx->state == STATE_TYPE\)(.*?)else if \((.*?)\)\s*\{(.*?)state_switch \(ctx, STATE_TYPE\)', self.body, re.S)
         if not m:
             shape('start_type: state list not found')
             return None
         listed = re.findall(r'ctx->state == STATE_(\w+)', m.group(2))
+        # nothing between the element-name guard and the state test may return FALSE for other states
+        head = self.body[:m.start()]
+        if len(re.findall(r'return FALSE;', head)) != 1:
+            shape('start_type: more than the element-name guard before the state test')
         if state == 'TYPE':
             return {'target': 'TYPE', 'prelude': False, 'switch': False, 'push': False}
         if state in listed:
             return {'target': 'TYPE', 'prelude': False, 'switch': True, 'push': False}
-        return None
+        return {'target': state, 'prelude': False, 'switch': False, 'push': False}
 
 
 def dispatch_items(seh_body):
